@@ -71,17 +71,6 @@ theorem nextBar_total (s : CommodityChannelIndex F) (b : Bar F) (h : WF s) :
     rw [p1, p2, h.per]
   · simpa [period_fn, SimpleMovingAverage.period_fn_eq] using p1
 
-theorem reset_eq (s : CommodityChannelIndex F) (h : WF s) : s.reset = some (fresh s.period_fn) := by
-  unfold reset
-  simp [SimpleMovingAverage.reset_eq _ h.sma, MeanAbsoluteDeviation.reset_eq _ h.mad, fresh, period_fn,
-    SimpleMovingAverage.period_fn_eq, h.per]
-
 theorem period_fn_eq (s : CommodityChannelIndex F) : s.period_fn = s.sma.period := rfl
-theorem display_eq (fmt : F → String) (s : CommodityChannelIndex F) :
-    display fmt s = "CCI(" ++ toString s.sma.period ++ ")" := rfl
-theorem default_eq : (default_ : Option (CommodityChannelIndex F)) = some (fresh 20) := by
-  unfold default_
-  rw [new_eq]
-  simp [unwrap, isizeMax]
 
 end TaRs.Gen.CommodityChannelIndex
